@@ -293,6 +293,9 @@ def run(tier, replay=None):
         parserules.check(prog, rep, which)
     rep.count('decision paths analysed', total_paths)
     rep.floor('decision paths', total_paths, 200)
+    # values built by the compile-time macros belong to this property's domain as well: the macro witnesses of C16 (cached per tree)
+    from . import c16
+    c16.witness_family(rep, tier)
     rep.explanation = ('Finite truth tables decided symbolically: each matches body is explored path by path (callees inlined, every branch on a flag, on the '
                        'presence of a field or on a field equality is a fork); each path is compared with the wildcard formula under every completion of its '
                        'partial valuation.  Symmetry, reflexivity, monotonicity in the flags and coincidence with equality are consequences of the formula.')
